@@ -380,7 +380,7 @@ func (v *BackendView) parseEnveloped() {
 				v.Msgs = append(v.Msgs, nil)
 				continue
 			}
-			d, err := decompressBytes(comp, p)
+			d, err := decompressFrame(comp, p)
 			if err != nil {
 				v.problem("request frame %d flagged compressed does not inflate with %s: %v", i, comp, err)
 				v.Payloads = append(v.Payloads, nil)
